@@ -90,3 +90,128 @@ def values_of_any_level(model: SidModel) -> List[str]:
         for p, n in spec.digit_forms:
             vals.add(p + "1".zfill(n))
     return sorted(vals)
+
+
+# ----------------------------------------------------------------------------------------------
+# Searches (C07 family)
+# ----------------------------------------------------------------------------------------------
+
+def _qsafe(v: str) -> str:
+    for c in "%+&=#;? \t\n\r":
+        v = v.replace(c, "")
+    return v or "x"
+
+
+@st.composite
+def search_from(draw, m: SidModel, t: str, fields: Dict[str, str], allow_gt: bool = True, inseg_star: bool = False,
+                allow_filters: bool = True, allow_malformed: bool = True, star_p: int = 35):
+    """A search string derived from a valid concrete Sid (t, fields). Returns {'s', 'labels'}."""
+    keys = m.keys(t)
+    segs = [fields[k] for k in keys]
+    labels = []
+    syms = ["*", "*", "*"] + ([">"] if allow_gt else [])
+    for i, k in enumerate(keys):
+        r = draw(st.integers(0, 99))
+        spec = m.specs[(t, k)]
+        if r < star_p:
+            segs[i] = draw(st.sampled_from(syms))
+            labels.append("sym:" + segs[i])
+        elif r < star_p + 8:
+            n = draw(st.integers(2, 3))
+            alts = [segs[i]] + [draw(st.one_of(concrete_value(spec), st.sampled_from(["zz", "*"]))) for _ in range(n - 1)]
+            alts = draw(st.permutations(alts))
+            sep = draw(st.sampled_from([",", ",", ", "]))
+            segs[i] = sep.join(alts)
+            labels.append("comma")
+        elif r < star_p + 11 and inseg_star and segs[i]:
+            pos = draw(st.integers(0, len(segs[i])))
+            end = draw(st.integers(pos, len(segs[i])))
+            segs[i] = segs[i][:pos] + "*" + segs[i][end:]
+            labels.append("inseg-star")
+    # alias in the last segment
+    aliases = all_aliases(m)
+    if aliases and draw(st.integers(0, 9)) < 2:
+        al = [a for a in aliases if m.accepts(t, [fields[k] for k in keys[:-1]] + [a])] or aliases
+        a = draw(st.sampled_from(al))
+        segs[-1] = a if draw(st.booleans()) else segs[-1] + "," + a
+        labels.append("alias")
+    # '**'
+    r = draw(st.integers(0, 99))
+    if r < 30 and len(segs) >= 1:
+        i = draw(st.integers(1, len(segs)))          # span start (never the very first segment: root must exist)
+        j = draw(st.integers(i, len(segs)))          # span end (i == j: zero-length, '**' inserted)
+        segs = segs[:i] + ["**"] + segs[j:]
+        labels.append("dstar:" + ("end" if j >= len(keys) else "middle") + (":zero" if i == j else ""))
+    malformed = False
+    if allow_malformed and draw(st.integers(0, 99)) < 6:
+        malformed = True
+        kind = draw(st.sampled_from(["two-dstar", "dstar-noslash", "bad-root", "empty-seg", "tristar", "lone-q", "dstar-first"]))
+        labels.append("malformed:" + kind)
+        if kind == "two-dstar":
+            segs = segs[:1] + ["**"] + segs[1:2] + ["**"] + segs[3:]
+        elif kind == "dstar-noslash":
+            segs[-1] = segs[-1] + "**"
+        elif kind == "bad-root":
+            segs = ["bla"] + segs[1:2] + ["**"]
+        elif kind == "empty-seg":
+            i = draw(st.integers(0, len(segs) - 1))
+            segs[i] = ""
+        elif kind == "tristar":
+            segs = segs[:2] + ["***"]
+        elif kind == "dstar-first":
+            segs = ["**"] + segs[1:]
+    s = "/".join(segs)
+    if malformed and "malformed:lone-q" in labels:
+        s = s + "?"
+    # filters
+    if allow_filters:
+        nf = draw(st.sampled_from([0, 0, 0, 1, 1, 2]))
+        filters = []
+        base = m.basetype(t)
+        for _ in range(nf):
+            kind = draw(st.sampled_from(["existing", "existing", "existing-star", "existing-bad", "deeper", "foreign", "unknown", "alias", "comma"]))
+            opt = draw(st.sampled_from(["", "", "~"]))
+            if kind in ("existing", "existing-star", "existing-bad", "comma"):
+                k = draw(st.sampled_from(keys))
+                spec = m.specs[(t, k)]
+                if kind == "existing":
+                    v = draw(st.one_of(st.just(fields[k]), concrete_value(spec)))
+                elif kind == "existing-star":
+                    v = draw(st.sampled_from(["*"] + ([">"] if allow_gt else [])))
+                elif kind == "existing-bad":
+                    v = draw(st.sampled_from(["zz", "V1", "bla"]))
+                else:
+                    v = fields[k] + "," + draw(concrete_value(spec))
+            elif kind == "deeper":
+                longer = [x for x in m.types if m.basetype(x) == base and m.keys(x)[:len(keys)] == keys and len(m.keys(x)) > len(keys)]
+                if longer:
+                    lt = draw(st.sampled_from(longer))
+                    k = m.keys(lt)[len(keys)]
+                    v = draw(value(m.specs[(lt, k)], 0.3))
+                else:
+                    k, v = keys[-1], fields[keys[-1]]
+            elif kind == "foreign":
+                others = [(x, kk) for x in m.types if m.basetype(x) != base for kk in m.keys(x) if kk not in keys]
+                if others:
+                    x, k = draw(st.sampled_from(others))
+                    v = draw(value(m.specs[(x, k)], 0.2))
+                else:
+                    k, v = "nokey", "x"
+            elif kind == "alias" and aliases:
+                k = m.leaf_key(t) or keys[-1]
+                v = draw(st.sampled_from(aliases))
+            else:
+                k, v = "nokey", "x"
+            filters.append(f"{k}={opt}{_qsafe(v) if ',' not in v else ','.join(_qsafe(x) for x in v.split(','))}")
+            labels.append("filter:" + kind + ("/opt" if opt else ""))
+        if filters:
+            s = s + "?" + "&".join(filters)
+    return {"s": s, "labels": labels}
+
+
+@st.composite
+def search(draw, m: SidModel, types=None, **kw):
+    t, f = draw(typed_fields(m, types, search_p=0.0, wide=False, digits_dense=True))
+    r = draw(search_from(m, t, f, **kw))
+    r["from"] = t
+    return r
